@@ -358,6 +358,23 @@ func plyTrace(id int, counts []int, format ff.PLYFormat, rot int, rng *rand.Rand
 		if h2, e2 := ff.NewPLYHeaderDecode(sink.String()); e2 == nil && headersEqual(hdr, h2) {
 			hdrOK = true
 		}
+		// the same header with element counts beyond 32 bits (a header can be written and read without its rows)
+		big := &ff.PLYHeader{Format: hdr.Format}
+		for i, e := range hdr.Elements {
+			big.Elements = append(big.Elements, &ff.PLYElement{Name: e.Name, Properties: e.Properties,
+				Count: []int64{1<<31 - 1, 1 << 31, 1<<40 + 7, 1<<62 + 1}[(id+i)%4]})
+		}
+		var bsink bytes.Buffer
+		if p := protect(func() {
+			if _, e := ff.NewPLYWriter(&bsink, big); e != nil {
+				hdrOK = false
+			}
+		}); p != "" {
+			hdrOK = false
+		}
+		if h3, e3 := ff.NewPLYHeaderDecode(bsink.String()); e3 != nil || !headersEqual(big, h3) {
+			hdrOK = false
+		}
 	}
 	rec.Ev = append(rec.Ev, plyEv{Op: "open", Res: resOrPanic(errClass(err), note), Ok: hdrOK, Note: note})
 	if note != "" || err != nil {
